@@ -298,6 +298,16 @@ def run_property(pid, tier, seed, only=None, keep=False, nodiff=False):
         # known findings for this property
         kf = [k for k in known_findings() if k['property'] == pid and k.get('status', 'open') == 'open']
         known_keys = [k['key'] for k in kf]
+        # 2a. E1: cbmc harnesses (each twice: the proof obligation and its witness twin, which must fail) start now and run beside the pool
+        cbmc_ex = None; cbmc_futs = []
+        if chs:
+            import e1
+            from concurrent.futures import ThreadPoolExecutor as TPE
+            for h in chs: e1.translate(build, h.wrapper)
+            def one(h):
+                r = e1.run_cbmc(build, h); w = e1.run_cbmc(build, h, witness=True)
+                return h, r, w
+            cbmc_ex = TPE(max_workers=max(1, NCPU // 2)); cbmc_futs = [cbmc_ex.submit(one, h) for h in chs]
         # 2. symbolic exploration on a pool with dynamic splitting
         per = {h.name: dict(paths=0, queries=0, solver_s=0.0, funcs=set(), findings=[], unsupported=[], n_unsupported=0, obligations=0, obl_paths=0,
                             reached={}, samples=[], errors=[], incomplete=0, steps=0) for h in hs}
@@ -345,16 +355,9 @@ def run_property(pid, tier, seed, only=None, keep=False, nodiff=False):
                 diff_ok += n_ok
                 for m in mism: machinery.append('%s: interpreter and native build disagree on %s: %s vs %s' % (h.name, m['inputs'], m['interp'], m['native']))
                 for e in errs: machinery.append('%s: %s' % (h.name, e))
-        # 3b. E1: cbmc harnesses (each twice: the proof obligation and its witness twin, which must fail)
-        cres = []
-        if chs:
-            import e1
-            from concurrent.futures import ThreadPoolExecutor as TPE
-            for h in chs: e1.translate(build, h.wrapper)
-            def one(h):
-                r = e1.run_cbmc(build, h); w = e1.run_cbmc(build, h, witness=True)
-                return h, r, w
-            with TPE(max_workers=max(1, NCPU // 2)) as ex: cres = list(ex.map(one, chs))
+        # 3b. collect the cbmc results
+        cres = [f.result() for f in cbmc_futs]
+        if cbmc_ex: cbmc_ex.shutdown()
         # 4. verdicts
         replayed = 0; violations = []; knowns = []; unconfirmed = []
         machinery += build_msgs
